@@ -156,6 +156,16 @@ def required_labels(tier):
     return ['sequence', 'automatic-mask', 'requested-mask', 'close-race', 'M1', 'M2', 'M3', 'M4', 'v1-9', 'v10-26', 'v27-40']
 
 
+def _fuzz(tier):
+    """Coverage-guided phase (atheris), thorough tier (or VERIF_FUZZ_RUNS=<n> in any tier)."""
+    import os
+    runs = int(os.environ.get('VERIF_FUZZ_RUNS', '0' if tier == 'quick' else '320000'))
+    if not runs:
+        return []
+    from .. import fuzz
+    return [fuzz.fuzz_phase(__name__, runs)]
+
+
 def phases(tier, seed):
     n = 9600 if tier == 'quick' else 300000
     return [
@@ -167,4 +177,4 @@ def phases(tier, seed):
         Enum('sequences', lambda: sequence_enum(tier, seed), exhaustive=False,
              note='Structured Append sequences with every requested mask and the automatic mask'),
         Search('generated', mask_cases(), n),
-    ]
+    ] + _fuzz(tier)
